@@ -712,6 +712,24 @@ class Evaluator:
             if isinstance(st, (ast.FunctionDef, ast.ClassDef)):
                 fr.env[st.name] = ("localdef", st.name)
                 continue
+            if isinstance(st, ast.For) and not st.orelse and not any(isinstance(n, (ast.Break, ast.Continue)) for n in ast.walk(st)):
+                # a loop over a display of known length is the straight-line code it abbreviates
+                it = self.expr(st.iter, fr)
+                while it[0] == "var" and len(it) == 4:
+                    it = it[3]
+                if it[0] in ("tuple", "list") and len(it[1]) <= 8 and not any(x[0] == "star" for x in it[1]):
+                    for item in it[1]:
+                        if live == FALSE:
+                            break
+                        self.assign(st.target, item, fr, st)
+                        sub = self.block(st.body, fr, live)
+                        live = FALSE
+                        for o in sub:
+                            if o.kind == "fall":
+                                live = o.cond
+                            else:
+                                outs.append(o)
+                    continue
             raise Unsupported(f"statement {type(st).__name__} at line {st.lineno} "
                               f"in {fr.fn.qualname if fr.fn else '?'}")
         outs.append(Outcome(live, "fall", None))
@@ -846,6 +864,12 @@ class Evaluator:
                 lo = self.expr(e.slice.lower, fr) if e.slice.lower else NONE
                 hi = self.expr(e.slice.upper, fr) if e.slice.upper else NONE
                 stp = self.expr(e.slice.step, fr) if e.slice.step else NONE
+                if base[0] in ("tuple", "list") and not any(x[0] == "star" for x in base[1]) and stp == NONE:
+                    nlo = 0 if lo == NONE else number(lo)
+                    nhi = len(base[1]) if hi == NONE else number(hi)
+                    if nlo is not None and nhi is not None and nlo.denominator == 1 if not isinstance(nlo, int) else True:
+                        if nhi is not None and (isinstance(nhi, int) or nhi.denominator == 1) and nlo is not None:
+                            return (base[0], tuple(base[1][int(nlo):int(nhi)]))
                 return ("slice", base, lo, hi, stp)
             idx = self.expr(e.slice, fr)
             n = number(idx)
@@ -1282,8 +1306,9 @@ def is_private_helper(f: FunctionInfo) -> bool:
 
 
 def _has_loop(node: ast.AST) -> bool:
+    """Shapes the value evaluator cannot read (a ``for`` is tried: loops over displays of known length are unrolled, others give up there)."""
     for n in ast.walk(node):
-        if isinstance(n, (ast.For, ast.While, ast.With, ast.Try, ast.Yield, ast.YieldFrom)):
+        if isinstance(n, (ast.While, ast.With, ast.Try, ast.Yield, ast.YieldFrom)):
             return True
     return False
 
